@@ -480,13 +480,7 @@ impl V {
             let is_last = i + 1 == terms.len();
             self.flow.set((after_match, prov));
             let before = cur.clone();
-            if let Term::Match(p) = t {
-                let maybe_nil = before.contains_nil() && !before.is_nil();
-                let field_access = i > 0 && matches!(&terms[i - 1], Term::Access(_, a) if !a.is_empty());
-                if maybe_nil && field_access && accepts_nil(p) {
-                    return Err("nil test on a field that may be nil (open finding: the `=>` forward narrowing then narrows the FIELD to non-nil)".into());
-                }
-            }
+            let _ = &before;
             cur = self.term(env, &cur, terms, i, tail && is_last, cx)?;
             match t {
                 Term::Match(p) => {
@@ -755,9 +749,6 @@ impl V {
                 env.kill_pending();
                 if fs_out.1 && !fs_out.0 {
                     self.prov_matches.set(self.prov_matches.get() + 1);
-                }
-                if ty.contains_nil() && !ty.is_nil() && accepts_nil(p) && matches!(c.terms.last(), Some(Term::Access(_, a)) if !a.is_empty()) {
-                    return Err("nil test on a field that may be nil (open finding: the `=>` forward narrowing then narrows the FIELD to non-nil)".into());
                 }
                 let (vty, refutable) = self.check_pat(env, p, &ty, true, fs_out.1 && !fs_out.0)?;
                 Ok((vty, if refutable { env.pending() } else { vec![] }, (true, fs_out.1)))
